@@ -6,13 +6,16 @@
 (*  id                                                                      *)
 (*  patmatch : patmatch[p] = the channels pattern p matches (by the         *)
 (*             construction of the names)                                   *)
-(*  msgs     : every message handed to the server for publication -         *)
-(*             client PUBLISH (d = w = 0) and the channel messages of the   *)
-(*             writes: [c, i, ch, d, w, st, rt]; st / rt are the tickets    *)
+(*  chans    : chans[f] = [k, kinds]: channel f carries the events of a     *)
+(*             fence on key k that reports these detect codes (ascending)   *)
+(*  pubs     : every client PUBLISH [c, i, ch, st, rt]; st / rt are tickets *)
 (*             drawn from one atomic counter just before the command was    *)
 (*             written to the socket / just after its reply was read        *)
 (*  writes   : every SET of the run [c, i, w, k, st, rt]; w is its position *)
-(*             among the SETs of appendonly.aof                             *)
+(*             among the SETs of appendonly.aof.  Every SET puts a fresh    *)
+(*             object inside every fence of its key, so that it generates   *)
+(*             for channel f exactly chans[f].kinds (the token semantics of *)
+(*             Notify)                                                      *)
 (*  insts    : subscription instances [s, j, kind, n, st, at, ust, uat]:    *)
 (*             tickets of SUBSCRIBE sent / acknowledgement read /           *)
 (*             UNSUBSCRIBE sent / its acknowledgement read (0 = never)      *)
@@ -53,8 +56,13 @@ SubMust(r, x, m) == /\ Covers(r.patmatch, x.kind, x.n, m.ch)
                     /\ m.rt # 0
                     /\ (x.ust = 0 \/ m.rt < x.ust)
 InstOf(r, s) == {x \in SeqRange(r.insts) : x.s = s}
-SubEligItems(r, s) == {Tag(p[1], p[2]) : p \in {pp \in SeqRange(r.msgs) \X InstOf(r, s) : SubElig(r, pp[2], pp[1])}}
-SubMustItems(r, s) == {Tag(p[1], p[2]) : p \in {pp \in SeqRange(r.msgs) \X InstOf(r, s) : SubMust(r, pp[2], pp[1])}}
+\* every message handed to Server.Publish: the client PUBLISHes and the channel messages of the writes
+Msgs(r) == {[c |-> p.c, i |-> p.i, ch |-> p.ch, d |-> 0, w |-> 0, st |-> p.st, rt |-> p.rt] : p \in SeqRange(r.pubs)}
+           \cup {[c |-> t[1].c, i |-> t[1].i, ch |-> t[2], d |-> t[3], w |-> t[1].w, st |-> t[1].st, rt |-> t[1].rt] :
+                   t \in {tt \in SeqRange(r.writes) \X (1..Len(r.chans)) \X (3..4) :
+                            r.chans[tt[2]].k = tt[1].k /\ tt[3] \in SeqRange(r.chans[tt[2]].kinds)}}
+SubEligItems(r, s, M) == {Tag(p[1], p[2]) : p \in {pp \in M \X InstOf(r, s) : SubElig(r, pp[2], pp[1])}}
+SubMustItems(r, s, M) == {Tag(p[1], p[2]) : p \in {pp \in M \X InstOf(r, s) : SubMust(r, pp[2], pp[1])}}
 
 \* ---- webhooks and live fences: the messages of the writes into the fence's key
 GeoItems(W, k, kinds) == {[c |-> p[1].c, i |-> p[1].i, ch |-> 0, d |-> p[2], w |-> p[1].w, st |-> p[1].st, rt |-> p[1].rt] :
@@ -71,9 +79,10 @@ AttemptsOK(att, gen) ==
 
 \* ---- one line
 Verdicts(r) ==
-  LET W == SeqRange(r.writes) IN
+  LET W  == SeqRange(r.writes)
+      MS == Msgs(r) IN
      {[kind |-> "sub", r |-> x.s, n |-> Len(x.items),
-       why |-> LET E == SubEligItems(r, x.s)  M == SubMustItems(r, x.s)
+       why |-> LET E == SubEligItems(r, x.s, MS)  M == SubMustItems(r, x.s, MS)
                IN IF StreamSafe(x.items, E, Before) /\ StreamComplete(x.items, M) THEN {}
                   ELSE {d.why : d \in Defects(x.items, E, M, Before)}] : x \in SeqRange(r.subs)}
   \cup
